@@ -39,7 +39,14 @@ L2 == {[k |-> kd, s |-> S] : kd \in {"SetExtension", "Disjunction", "Conjunction
       \cup {[k |-> "Implication", a |-> a, b |-> W("c")] : a \in M1s} \cup {[k |-> "ConjunctionSequential", q |-> <<a, W("c")>>] : a \in M1s}
 L3 == {[k |-> "IntersectionExtension", s |-> {v, W("z")}] : v \in Sample(L2, 11, SEED)}
       \cup {[k |-> "Equivalence", p |-> {v, SE1(v)}] : v \in Sample(L2, 13, SEED)}
-EqU == L1 \cup L2 \cup L3
+\* sets with many elements (a hash that only looks at part of a set is fine below that size), intervals that differ by 2^32 / 2^63
+Ws(m) == {W("w" \o ToString(i)) : i \in 1..m}
+Big == {[k |-> kd, s |-> Ws(m)] : kd \in SetKinds, m \in {9, 12, 20}}
+       \cup {[k |-> "Similarity", p |-> {[k |-> "SetExtension", s |-> Ws(9)], [k |-> "Conjunction", s |-> Ws(10)]}],
+             [k |-> "SetIntension", s |-> {[k |-> "Disjunction", s |-> Ws(11)], W("a")}]}
+Ints == {INT("1"), INT("4294967297"), INT("9223372036854775809"), INT("0"), INT("4294967296")}
+IntU == Ints \cup {[k |-> "SetExtension", s |-> {iv, W("a")}] : iv \in Ints} \cup {[k |-> "Product", q |-> <<iv>>] : iv \in Ints}
+EqU == L1 \cup L2 \cup L3 \cup Big \cup IntU
 
 \* near misses: different canonical form, as close as possible
 SetSwap(kd) == CASE kd = "SetExtension" -> "SetIntension" [] kd = "SetIntension" -> "SetExtension" [] kd = "Conjunction" -> "Disjunction"
@@ -52,6 +59,7 @@ Near(v) ==
     [] v.k \in SeqKinds -> {[v EXCEPT !.q = Rev(@)], [v EXCEPT !.q = @ \o <<W("q")>>]}
     [] v.k \in ImgKinds -> {[v EXCEPT !.i = (@ + 1) % (Len(v.q) + 1)], [v EXCEPT !.k = IF @ = "ImageExtension" THEN "ImageIntension" ELSE "ImageExtension"]}
     [] v.k \in AsymBinKinds -> {[v EXCEPT !.a = v.b, !.b = v.a], [v EXCEPT !.k = IF @ = "Inheritance" THEN "Implication" ELSE "Inheritance"]}
+    [] v.k = "Interval" -> {iv \in Ints : iv # v}                                \* same low 32 bits, different value
     [] OTHER -> {}
 
 Init == \/ mode = "design" /\ x \in BTerms(DEPTH - 1) /\ y = 0
